@@ -14,7 +14,7 @@ test, except ``xarray.Dataset.equals`` of the third-party library which the stat
   folder was moved and the cwd changed.
 * ``netcdf``  ``save_dataset``/``load_dataset`` bit-equal.
 * ``ascii``   time-/wavelength-explicit files: values and secondary axis to 1e-10 rel., explicit axis to
-  1e-13 rel. (text round trip), both axes in the right orientation.
+  1e-12 rel. (text round trip), both axes in the right orientation.
 """
 
 from __future__ import annotations
@@ -40,7 +40,10 @@ from vlib.core import check
 from vlib.core import expect_ok
 from vlib.gen import c17_models as G
 
-RTOL_TEXT = 1e-13  # text round trip of a full-precision repr through pandas' C float parser (as C16)
+# Text round trip of a full-precision ``repr`` through pandas' default C float parser: the parser keeps 17 digits
+# *including leading zeros*, so a fixed-notation repr in [1e-4, 1) ("0.0007726439553245901") is truncated with an
+# absolute error < 1e-16, i.e. up to 1e-12 relative (measured 1.17e-13); elsewhere a few ulp.
+RTOL_TEXT = 1e-12
 RTOL_OBJ = 1e-12  # objective of the reloaded model
 RTOL_ASCII = 1e-10  # "%.10e"
 
@@ -698,7 +701,7 @@ def selfcheck():
     assert first_diff({"a": True}, {"a": 1}) is not None
     assert first_diff({"a": "1"}, {"a": 1}) is not None
     assert first_diff({"a": float("inf")}, {"a": float("inf")}) is None
-    assert close(1.0, 1.0 + 5e-14, RTOL_TEXT) and not close(1.0, 1.0 + 1e-11, RTOL_TEXT)
+    assert close(1.0, 1.0 + 5e-13, RTOL_TEXT) and not close(1.0, 1.0 + 1e-11, RTOL_TEXT)
     assert close(float("nan"), float("nan"), 0) and not close(float("inf"), 1e308, 1e-3) and close(None, None, 0) and not close(None, 1.0, 1)
     assert arrays_close([1.0, np.nan, np.inf, 0.0], [1.0 + 1e-14, np.nan, np.inf, -0.0], 1e-13)
     assert not arrays_close([1.0, 2.0], [1.0, 2.0 + 1e-9], 1e-10) and not arrays_close([1.0], [1.0, 1.0], 1)
@@ -740,8 +743,8 @@ PROPERTY = Property(
     assumptions=[
         "ruamel.yaml (safe loader) is trusted to read the path entries of result.yml / scheme.yml; xarray.Dataset.equals and numpy byte comparison are trusted",
         "compartment / item labels are \\w+ words (the only ones the yml model format can express as '(to, from)' keys); the original model must be valid and evaluable (else discarded)",
-        "tolerances: objective of the reloaded model 1e-12 relative (cost, residual max-norm, penalties); csv/tsv parameters, histories and the ASCII explicit axis 1e-13 relative "
-        "(full repr written, pandas' C float parser is not correctly rounded - as in C16); yml statistics exact; netCDF bit-equal; ASCII values and secondary axis 1e-10 relative ('%.10e')",
+        "tolerances: objective of the reloaded model 1e-12 relative (cost, residual max-norm, penalties); csv/tsv parameters, histories and the ASCII explicit axis 1e-12 relative "
+        "(full repr written; pandas' default C float parser keeps 17 digits including leading zeros: |abs err| < 1e-16 for |x| in [1e-4, 1)); yml statistics exact; netCDF bit-equal; ASCII values and secondary axis 1e-10 relative ('%.10e')",
         "SavingOptions.data_format is 'nc' (its declared Literal); parameter_format csv and tsv",
     ],
     selfcheck=selfcheck,
